@@ -304,13 +304,17 @@ def rs_configs(prop, quick_np, thorough_np):
 
 PROPS["C13"] = dict(
     module="RaptorModel.Props.C13",
+    extra_theorem_modules=["RaptorModel.Props.C13RS"],
     harnesses=["h_rs"],
     configs=rs_configs("C13", [1, 2, 3, 4, 6], [1, 2, 3, 4, 5, 6, 8, 12, 16]),
     rule=("strength graphs of random M-matrix-like systems (symmetric and non-symmetric patterns, decoupled vertices, thresholds 0..1/2), up to ~30 "
           "vertices (thorough: more), distinct caller-supplied weights (random permutation); RS, CLJP, Falgout, PMIS, HMIS; layouts incl. "
           "empty ranks and ranks without boundary; standard and node-aware. Non-trivial = the graph has an edge."),
     trusted=COMMON_TRUST + ["weights are distinct dyadic-free doubles (k+1)/(n+2); comparisons exact"],
-    assumptions=["RS first/second pass: specification predicates only (no executable model of the bucket structure at this commit)"],
+    assumptions=["sequential RS: the bucket machine Model/RS.lean mirrors rs_first_pass / rs_second_pass array for array (labels compared exactly on every "
+                 "sequential case); 'fine keeps a coarse neighbour' is proved for every visit order (C13RS.splitRS_FC); totality is proved under the "
+                 "hypothesis that the bucket order reaches every column, which the driver evaluates on every instance (certificate visit_order)",
+                 "distributed RS: specification predicates only"],
 )
 
 PROPS["C12"] = dict(
